@@ -81,3 +81,69 @@ end
 def mapModule (m : ExprMap) (md : Module) : Module := ⟨mapBody m md.body⟩
 
 end PMV.Traverse
+
+namespace PMV.Traverse
+open PMV
+
+def anyO (p : Expr → Bool) : Option Expr → Bool
+  | none => false
+  | some e => p e
+
+mutual
+def anyPattern (p : Expr → Bool) : Pattern → Bool
+  | .matchValue v => p v
+  | .matchSingleton _ => false
+  | .matchSequence ps => anyPatterns p ps
+  | .matchMapping ks ps _ => ks.any p || anyPatterns p ps
+  | .matchClass c ps _ kp => p c || anyPatterns p ps || anyPatterns p kp
+  | .matchStar _ => false
+  | .matchAs q _ => anyOptPattern p q
+  | .matchOr ps => anyPatterns p ps
+def anyPatterns (p : Expr → Bool) : List Pattern → Bool
+  | [] => false
+  | q :: qs => anyPattern p q || anyPatterns p qs
+def anyOptPattern (p : Expr → Bool) : Option Pattern → Bool
+  | none => false
+  | some q => anyPattern p q
+end
+
+def anyTypeParam (p : Expr → Bool) : TypeParam → Bool
+  | .typeVar _ b d => anyO p b || anyO p d
+  | .paramSpec _ d => anyO p d
+  | .typeVarTuple _ d => anyO p d
+
+mutual
+/-- does `p` hold at some top-level expression position (or `pa` at some `arguments`) of the statement tree? -/
+def anyStmt (p : Expr → Bool) (pa : Arguments → Bool) : Stmt → Bool
+  | .functionDef _ _ args body decs ret tps =>
+    pa args || anyBody p pa body || decs.any p || anyO p ret || tps.any (anyTypeParam p)
+  | .classDef _ bases kws body decs tps =>
+    bases.any p || kws.any (fun k => match k with | .mk _ v => p v) || anyBody p pa body || decs.any p || tps.any (anyTypeParam p)
+  | .return_ v => anyO p v
+  | .delete ts => ts.any p
+  | .assign ts v => ts.any p || p v
+  | .typeAlias n tps v => p n || tps.any (anyTypeParam p) || p v
+  | .augAssign tg _ v => p tg || p v
+  | .annAssign tg ann v _ => p tg || p ann || anyO p v
+  | .for_ _ tg it body orelse => p tg || p it || anyBody p pa body || anyBody p pa orelse
+  | .while_ c body orelse => p c || anyBody p pa body || anyBody p pa orelse
+  | .if_ c body orelse => p c || anyBody p pa body || anyBody p pa orelse
+  | .with_ _ items body => items.any (fun w => p w.contextExpr || anyO p w.optionalVars) || anyBody p pa body
+  | .match_ s cases => p s || anyCases p pa cases
+  | .raise_ e c => anyO p e || anyO p c
+  | .try_ _ body hs orelse fin => anyBody p pa body || anyHandlers p pa hs || anyBody p pa orelse || anyBody p pa fin
+  | .assert_ c msg => p c || anyO p msg
+  | .expr v => p v
+  | _ => false
+def anyBody (p : Expr → Bool) (pa : Arguments → Bool) : List Stmt → Bool
+  | [] => false
+  | s :: ss => anyStmt p pa s || anyBody p pa ss
+def anyHandlers (p : Expr → Bool) (pa : Arguments → Bool) : List Handler → Bool
+  | [] => false
+  | .mk ty _ body :: hs => anyO p ty || anyBody p pa body || anyHandlers p pa hs
+def anyCases (p : Expr → Bool) (pa : Arguments → Bool) : List MatchCase → Bool
+  | [] => false
+  | .mk q g body :: cs => anyPattern p q || anyO p g || anyBody p pa body || anyCases p pa cs
+end
+
+end PMV.Traverse
